@@ -237,6 +237,33 @@ def constant_operands(ctx, al):
                                            "expected": repr(want), "observed": repr(got)})
 
 
+def power_operands(ctx, al):
+    """`stream ** c` is Python's `e ** c` on every element - also where that leaves the reals (negative bases with
+    fractional exponents, complex bases) and for every float the short cuts sqrt / x*x would round differently."""
+    elems = [-4.0, 9.0, -2.25, 71.93814951479868, 2, Fraction(9, 4), 3 + 4j, 0.1, 1e-7, 12345.678]
+    for c in (0.5, 2, 2.0, -1, 0.25, 1.5, Fraction(1, 2), 3, -0.5):
+        for side in ("right", "left"):
+            if side == "left" and isinstance(c, Fraction):
+                continue      # Fraction.__pow__(c, stream) itself turns c into a float before the Stream is asked
+            want = []
+            for e in elems:
+                try:
+                    want.append(e ** c if side == "right" else c ** e)
+                except Exception as ex:
+                    want.append("raises " + type(ex).__name__)
+            if any(isinstance(w, str) for w in want):
+                continue
+            try:
+                res = al.Stream(elems) ** c if side == "right" else c ** al.Stream(elems)
+                got = list(res)
+            except Exception as ex:
+                got = ["raised " + type(ex).__name__]
+            ctx.count(1)
+            if len(got) != len(want) or not all(same_value(g, w) for g, w in zip(got, want)):
+                ctx.violation("C01:power-operand", {"exponent" if side == "right" else "base": repr(c), "side": side,
+                                                    "expected": repr(want), "observed": repr(got)})
+
+
 def prog_key(prog):
     return tlaval.to_tla(prog)
 
@@ -584,6 +611,7 @@ def check(ctx):
     op_table(ctx, al)
     scalar_ladder(ctx, al)
     constant_operands(ctx, al)
+    power_operands(ctx, al)
     if ctx.thorough:
         m2_expr(ctx, al, "StreamOpsC01T", "StreamOpsC01T.cfg")
         m3_expr(ctx, al, 6000)
